@@ -41,6 +41,9 @@ def c06(case, f):
 
 def c18(case, f):
     inv = f["inv"]
+    if inv == "C18.parent_is_not_the_owner" and _feat(case)["same_text_subqueries"]:
+        # KF-35: two sub-queries with identical text but different names are equal objects for the export's parent table
+        return "KF-35"
     if inv == "C18.column_ids_not_unique":
         feat = _feat(case)
         # two distinct nodes print the same name: derived tables / CTEs sharing an alias in different scopes,
